@@ -33,6 +33,12 @@ var kindsByProp = map[string][]string{
 		"call", "call", "call", "call", "call", "call", "call", "create", "create", "create", "revert", "invalid", "return", "mem", "tstore"},
 }
 
+func init() {
+	// C15 (memory accounting): memory-touching actions and every operation with memory operands, heavily weighted
+	kindsByProp["C15"] = []string{"mem", "mem", "mem", "mem", "log", "log", "sstore", "transfer", "etx", "etx", "etx", "convert", "convert", "extcall", "extcall", "lockup", "lockup", "precompile", "precompile",
+		"call", "call", "call", "call", "call", "call", "create", "create", "create", "revert", "revert", "return", "return", "invalid", "selfdestruct"}
+}
+
 var (
 	ptnAlphabet = []uint64{100, params.ControllerKickInBlock - 1, params.ControllerKickInBlock, params.KawPowForkBlock - 1, params.KawPowForkBlock,
 		params.KawPowForkBlock + params.KQuaiChangeHoldInterval - 1, params.KawPowForkBlock + params.KQuaiChangeHoldInterval,
@@ -881,4 +887,11 @@ func TestC05(t *testing.T) {
 
 func TestC02(t *testing.T) {
 	rapid.Check(t, func(t *rapid.T) { runBytecode(t, "C02") })
+}
+
+// TestC15 (EVM half): the same generated programs and gas cuts, judged only by the memory-accounting oracle in the tracer.
+func TestC15(t *testing.T) {
+	memStress = true
+	defer func() { memStress = false }()
+	rapid.Check(t, func(t *rapid.T) { runBytecode(t, "C15") })
 }
